@@ -800,6 +800,20 @@ pub fn cli_main(props: &[&'static dyn Property]) -> i32 {
             println!("fp={:016x} choices={} steps={} faults={:?} probes={:?} violations={:?} harness_error={:?}", rec.fp, rec.choices.len(), rec.steps, rec.faults, rec.probes, rec.violations, rec.harness_error);
             0
         }
+        Some("tracerun") => {
+            // Debug helper: tracerun <Cxx> <r> [base_seed] → full trace of batch run r.
+            let Some(p) = find(&args[2]) else { return 2 };
+            let r: u64 = args[3].parse().unwrap();
+            let base: u64 = args.get(4).and_then(|s| s.parse().ok()).unwrap_or_else(|| default_seed(p.id()));
+            let modes = p.modes().max(1) as u64;
+            let spec = RunSpec { mode: (r % modes) as u32, seed: run_seed(base, p.id(), r) };
+            let rec = execute(p, spec, None);
+            for l in &rec.trace {
+                println!("  {l}");
+            }
+            println!("fp={:016x} violations={:?}", rec.fp, rec.violations);
+            0
+        }
         Some("fingerprints") => {
             // Determinism self-test helper: fingerprints <Cxx> <n> [base_seed] → one line per run.
             let Some(p) = find(&args[2]) else { return 2 };
